@@ -62,6 +62,8 @@ const (
 	InvQueryRelIdx      = 10 // UnsafeFilter.Query with an index relation (forbidden in the ID-based API); op.F unsafe filter
 	InvQueryNotInFilter = 11 // typed Filter.Query with a relation component that is not part of the filter
 	InvQueryDeadTarget  = 12 // typed Filter.Query with a dead entity as target (op.QT)
+	InvDupRemove        = 13 // the same component twice in a remove list (op.N: 0 Unsafe.Remove, 1 Unsafe.Exchange, 2 ExchangeN.Removes(c,c).Remove)
+	InvDupAdd           = 14 // the same component twice in an add list (Unsafe.Add / Unsafe.NewEntity)
 )
 
 // Method codes for InvStale.
@@ -194,6 +196,28 @@ func (x *World) runInvalid(op *model.Op, res *model.Result) *Violation {
 		fl := x.buildFilter(&x.M.Filters[op.F])
 		q := fl.Query(x.relArgs(op.QT))
 		q.Close()
+	case InvDupRemove:
+		h := x.H[op.E]
+		c := op.Rm.List()[0]
+		id := x.Env.ID(c)
+		switch op.N {
+		case 0:
+			u.Remove(h, id, id)
+		case 1:
+			u.Exchange(h, []ecs.ID{x.Env.ID(ct.T9)}, []ecs.ID{id, id})
+		case 2:
+			api.TypedExchanger(x.Env, []ct.Comp{ct.T9}, []ct.Comp{c, c}).Remove(h)
+		case 3:
+			api.TypedExchanger(x.Env, []ct.Comp{ct.T9}, []ct.Comp{c, c}).Exchange(h, []int64{0}, nil)
+		}
+	case InvDupAdd:
+		c := op.Tuple()[0]
+		id := x.Env.ID(c)
+		if op.N == 0 {
+			u.Add(x.H[op.E], id, id)
+		} else {
+			u.NewEntity(id, id)
+		}
 	case InvResAdd:
 		x.W.Resources().Add(ecs.ResourceTypeID(x.W, resTypes[op.N]), &res0{V: -1})
 	case InvResRemove:
